@@ -124,11 +124,19 @@ def native_term(v):
     raise ValueError(v)
 
 
+# user-defined alias classes (mc/fwdtype.py) and the term each stands for by default
+UALIAS = {"slug": ("str", (("alphabet", "ab"), ("len", 1, 2))),
+          "point": ("dict", (("a", False, ("int", (("min", 0), ("max", 7)))),
+                             ("b", True, ("str", (("call", "ab"),)))), False)}
+
+
 def resolve(t):
     """Top-level normal form: one of none / scalar / list / dict / any."""
     k = t[0]
     if k in ("alias",):
         return resolve(t[2])
+    if k == "ualias":
+        return resolve(UALIAS[t[1]])
     if k == "fwd":
         return resolve(t[1])
     if k == "native":
